@@ -51,25 +51,33 @@ import (
 type store struct {
 	put  func(*object.Object) error
 	mark func(cid.ID, []oid.ID) error
+	del  func(cid.ID, []oid.ID) error
 }
 
 func dbStore(db *meta.DB) store {
 	return store{put: db.Put, mark: func(c cid.ID, ids []oid.ID) error {
 		_, err := db.MarkGarbage(c, ids, meta.GarbageMarkDefault)
 		return err
+	}, del: func(c cid.ID, ids []oid.ID) error {
+		_, _, err := db.Delete(c, ids)
+		return err
 	}}
 }
 
 func shardStore(sh *shard.Shard) store {
 	return store{put: func(o *object.Object) error { return sh.Put(o, nil) },
-		mark: func(c cid.ID, ids []oid.ID) error { return sh.MarkGarbage(c, ids, meta.GarbageMarkDefault) }}
+		mark: func(c cid.ID, ids []oid.ID) error { return sh.MarkGarbage(c, ids, meta.GarbageMarkDefault) },
+		del:  sh.Delete}
 }
 
 // loadPositions stores the given corpus positions (in corpus order).
 func loadPositions(st store, c *searchgen.Corpus, positions []int) {
 	cnr := uni.Cnr(c.Cnr)
-	var garb []oid.ID
+	var garb, del []oid.ID
 	for _, i := range positions {
+		if c.IsDeleted(i) {
+			del = append(del, searchgen.ExtID(c.Specs[i].ID))
+		}
 		s := c.Specs[i]
 		err := st.put(searchgen.Build(s))
 		if c.TombstonedBefore(i) {
@@ -90,6 +98,11 @@ func loadPositions(st store, c *searchgen.Corpus, positions []int) {
 	if len(garb) > 0 {
 		if err := st.mark(cnr, garb); err != nil {
 			ev.Inconclusive("harness: mark garbage: %v", err)
+		}
+	}
+	if len(del) > 0 {
+		if err := st.del(cnr, del); err != nil {
+			ev.Inconclusive("harness: delete: %v", err)
 		}
 	}
 }
